@@ -959,6 +959,20 @@ class MinimizePatterns(Simple, DisjointUnionStrategy[WC, W]):
         return cls(**d)
 
 
+class MinimizeMarked(MinimizePatterns):
+    """MinimizePatterns from a strategy that says its one-child rules are not equivalences (can_be_equivalent False): the
+    redundant and the minimal class share an equivalence label, but a specification keeps the rule between them as a rule."""
+
+    def can_be_equivalent(self):
+        return False
+
+    def formal_step(self):
+        return "minimize patterns (not an equivalence)"
+
+    def __repr__(self):
+        return "MinimizeMarked()"
+
+
 class MinimizeOneWay(MinimizePatterns):
     """The same rule as MinimizePatterns (redundant class -> minimal class) from a strategy that declares itself one-way
     (reversible, not two-way): together with MinimizePatterns the same (parent, child) key is produced once as a one-way
@@ -1236,8 +1250,8 @@ def basic_pack(**kw):
 def make_pack(sym=False, inf=False, merge=False, iterative=False, factory=False, parent_factory=False,
               prefix_verified=None, prefix_verified_rev=None, empty_prefix_verified=False, two_sets=False, no_initial=False, name=None, expand=True,
               split=False, oneway=False, lazy=False, trim=False, rename=False, mono=False, fac2=False, cycle=False,
-              redundant_parent=False, brute=None, trimonly=False, hidden=False, trimrename=False, pfactory2=False, noinf=False, redpar=False, prefix_verified_nested=None, expand2=False, lookahead=False, ow2=None, sym_marked=False):
-    inferral = ([MinimizePatterns()] if inf else []) + ([MergeStats()] if merge else []) + ([RenameStats()] if rename else [])
+              redundant_parent=False, brute=None, trimonly=False, hidden=False, trimrename=False, pfactory2=False, noinf=False, redpar=False, prefix_verified_nested=None, expand2=False, lookahead=False, ow2=None, sym_marked=False, inf_marked=False):
+    inferral = ([MinimizeMarked()] if inf_marked else [MinimizePatterns()] if inf else []) + ([MergeStats()] if merge else []) + ([RenameStats()] if rename else [])
     exp = [ExpandFactory()] if factory else [Expand()]
     if parent_factory:
         exp = (exp if expand else []) + [ParentRuleFactory()]
